@@ -728,6 +728,35 @@ func (e *Exec) builtin(s *State, c *ssa.Call, b *ssa.Builtin, args []Val) []Out 
 			s.store(dst.Arr.sub(dst.Lo+i), s.load(src.Arr.sub(src.Lo+i)))
 		}
 		return ret(mkInt(int64(n)))
+	case "delete":
+		m, ok := args[0].(MapV)
+		if !ok {
+			unsupported("delete on %T", args[0])
+		}
+		if m.Cell == 0 {
+			return ret()
+		}
+		ma := s.Heap[m.Cell].(*MapAgg)
+		if ma.Unknown {
+			unsupported("delete from a symbolic map")
+		}
+		if k := keyIndex(ma, args[1]); k >= 0 {
+			n := &MapAgg{Tag: ma.Tag, Writes: append(append([]Val{}, ma.Writes...), args[1])}
+			for j := range ma.Keys {
+				if j == k {
+					continue
+				}
+				n.Keys = append(n.Keys, ma.Keys[j])
+				n.Vals = append(n.Vals, ma.Vals[j])
+				if j < len(ma.Oks) {
+					n.Oks = append(n.Oks, ma.Oks[j])
+				} else {
+					n.Oks = append(n.Oks, tTrue)
+				}
+			}
+			s.Heap[m.Cell] = n
+		}
+		return ret()
 	case "max", "min":
 		// numeric operands only (Int or Real terms)
 		cur, ok := args[0].(*T)
@@ -944,6 +973,7 @@ func (e *Exec) applyContract(s *State, c *ssa.Call, fn *ssa.Function, con *Contr
 		}
 		a.st.Trace = append(a.st.Trace, "call "+con.Func+" replaced by its contract")
 		a.st.Ghost["callret:"+con.target()] = Tuple(a.rets)
+		a.st.Ghost["callarg:"+con.target()] = Tuple(append([]Val{}, args...))
 		outs = append(outs, Out{St: a.st, Rets: a.rets})
 	}
 	if len(outs) == 0 {
